@@ -324,6 +324,33 @@ def sec_multicat(ck, dims=DIMS):
         return bad, {"failed": why[:6]}
     gp = conj([conj(it.side_conds())] + gs + [eq_elem(ent, ents)])
     ck.prove(f"multicat.product_sum@{tag}", asm, gp, replay=multi_replay(tr, S, it, pts, ov, judge_prod), nonlinear=True, margin_goal=mg(tame, gp))
+    # batched values: prob / log_prob act row by row (leading axes of `value` are batch axes)
+    rows = [support[-1], support[0], support[len(support) // 2]]
+    B = len(rows)
+    trb = trace(mc_seq_fn_for(dims), jnp.zeros(N), jnp.zeros((B, C), int), argnames=["l", "v"], label=f"MultiCategorical(sequence logits, {tag}).log_prob/prob over a batch of {B} values")
+    V = np.array(rows)
+    itb, Sb, outb = case_runs(trb, LogInterp, lambda it_: {"l": S["l"]}, [V])
+    ob = outb[tuple(np.ravel(V).tolist())]
+    okshape = tuple(np.shape(ob["p"])) == (B,) and tuple(np.shape(ob["lp"])) == (B,)
+    ck.fact(f"multicat.batched_shapes@{tag}", okshape, f"prob{np.shape(ob['p'])} log_prob{np.shape(ob['lp'])} for values of shape {(B, C)}")
+    if okshape:
+        ob_ = itb.o
+        gb = []
+        for b, k in enumerate(rows):
+            gb.append(eq_elem(low(ob_, ob["p"][b]), P[k]))
+            gb.append(eq_elem(expL(ob_, ob["lp"][b]), expL(o, LP[k])))
+
+        def rpb(res):
+            ins = {"l": ov["l"](res)}
+            real = mc_seq_fn_for(dims)(jnp.asarray(ins["l"], jnp.float32), jnp.asarray(V))
+            ref = [mc_seq_fn_for(dims)(jnp.asarray(ins["l"], jnp.float32), jnp.asarray(r)) for r in rows]
+            pb, pr = np.asarray(real["p"], float), np.array([float(r["p"]) for r in ref])
+            lb, lr = np.asarray(real["lp"], float), np.array([float(r["lp"]) for r in ref])
+            bad = pb.shape != pr.shape or lb.shape != lr.shape or not np.allclose(pb, pr, rtol=1e-3, atol=1e-6) or not np.allclose(lb, lr, rtol=1e-3, atol=1e-5)
+            return bool(bad), {"function": trb.label, "logits": np.asarray(ins["l"]).tolist(), "values": V.tolist(), "batched prob": pb.tolist(), "row-wise prob": pr.tolist(),
+                               "batched log_prob": lb.tolist(), "row-wise log_prob": lr.tolist()}
+        gbb = conj([conj(itb.side_conds()), conj(it.side_conds())] + gb)
+        ck.prove(f"multicat.batched_rowwise@{tag},B={B}", asm, gbb, replay=rpb, nonlinear=True, margin_goal=mg(tame, gbb))
     if dims == DIMS:
         ck.control("control.multicat.logprob_is_first_component", asm, conj([eq_elem(expL(o, LP[k]), expL(o, comp[k]["lp0"][()])) for k in support]), nonlinear=True)
 
